@@ -17,14 +17,16 @@ const REPS: [Rep; 8] = [
 const CYCLES: [f32; 11] = [1.0e-45, 1.0e-40, 2.0e-45, f32::MIN_POSITIVE, 1e-30, 1e-3, 0.1, 1.0, 3.0, 1e30, f32::MAX];
 const DELAYS: [f32; 9] = [0.0, 1.0e-45, 1.0e-40, 1e-30, 0.5, 1.0, 1e30, f32::MAX, -0.25];
 
-fn hostile_tl(r: &mut Rng, kinds: &[Kind], full_range_ints: bool) -> TlSpec {
+fn hostile_tl(r: &mut Rng, kinds: &[Kind], full_range_ints: bool, huge: Option<bool>) -> TlSpec {
     let cycle = *r.pick(&CYCLES);
     let delay = *r.pick(&DELAYS);
     let repeat = *r.pick(&REPS);
     let n = r.usize(5);
     // "huge" mode: values up to +-3e38 (every interpolated value between two of them is representable) with
     // easings that stay within [0,1]; otherwise values up to +-1e37 with all easings incl. the Back family
-    let huge = r.chance(1, 6);
+    // (an animator decides this once for all its timelines: a blend carries the current values of one state into
+    // the first segment of another, and 3.2e38 under a Back easing legitimately leaves the f32 range)
+    let huge = huge.unwrap_or_else(|| r.chance(1, 6));
     let n_eas = if huge { 26 } else { 29 };
     let mut kfs = Vec::new();
     for _ in 0..n {
@@ -113,7 +115,7 @@ fn panic_key(msg: &str) -> String {
 
 fn tl_case<S: Shape>(r: &mut Rng, acc: &mut Acc, out: &mut Out, stream: u64, index: u64, full_range_ints: bool) {
     let kinds = &S::KINDS[..S::N_ANIM];
-    let spec = hostile_tl(r, kinds, full_range_ints);
+    let spec = hostile_tl(r, kinds, full_range_ints, None);
     let case = |what: &str, t: f32| {
         case_json(stream, index, vec![("shape", J::s(S::NAME)), ("timeline", spec.json()), ("t", J::F(t as f64)), ("t_bits", J::U(t.to_bits() as u64)), ("clause", J::s(what))])
     };
@@ -207,11 +209,12 @@ fn tl_case<S: Shape>(r: &mut Rng, acc: &mut Acc, out: &mut Out, stream: u64, ind
 fn anim_case<S: Shape>(r: &mut Rng, acc: &mut Acc, out: &mut Out, index: u64) {
     let kinds = &S::KINDS[..S::N_ANIM];
     let mut states = Vec::new();
+    let huge = Some(r.chance(1, 6));
     for _ in 0..5 {
         states.push(match r.below(4) {
             0 => vec![],
-            1 | 2 => vec![hostile_tl(r, kinds, false)],
-            _ => vec![hostile_tl(r, kinds, false), hostile_tl(r, kinds, false)],
+            1 | 2 => vec![hostile_tl(r, kinds, false, huge)],
+            _ => vec![hostile_tl(r, kinds, false, huge), hostile_tl(r, kinds, false, huge)],
         });
     }
     let spec = AnimSpec { initial_state: r.usize(5), initial_values: Some(S::KINDS.iter().map(|k| gen_value(r, *k)).collect()), states, force_merged: false };
